@@ -451,8 +451,8 @@ def judge(stats, report, backend, e, position, rounds):
                        "interpreted": [short_o(o) for o in oi]})
     for idx, (a, b) in enumerate(zip(oc, oi)):
         if not outcomes_agree(a, b, rtol, atol):
-            if garbage(a) and garbage(b):
-                stats.reject('both sides hold inf/nan/INT_MIN (pole or overflow)')
+            if (garbage(a) or garbage(b)) and (garbage(a) or a[0] == 'err') and (garbage(b) or b[0] == 'err'):
+                stats.reject('pole or overflow: each side holds inf/nan/INT_MIN or raises')
                 return
             fkey = finding_key(backend, e, position, rounds, idx, a, b)
             report(fkey, case, expected=short_o(b), observed=short_o(a), note=f"round {idx}")
